@@ -15,6 +15,17 @@ use std::fs;
 use syn::spanned::Spanned;
 
 static FLAGS_OFF: std::sync::atomic::AtomicBool = std::sync::atomic::AtomicBool::new(false);
+/// `--lenient`: an overlay clause (proof hint, loop invariant, closure annotation) whose anchor no longer exists is DROPPED instead of
+/// stopping the extraction.  The contracts (`@spec`) are never dropped, so a unit extracted this way that still verifies has proved
+/// the same contracts; one that does not is reported by the driver as undecided (lost anchor), never as a violation.
+static LENIENT: std::sync::atomic::AtomicBool = std::sync::atomic::AtomicBool::new(false);
+fn soft(msg: &str) {
+    if LENIENT.load(std::sync::atomic::Ordering::Relaxed) {
+        eprintln!("MTX-LENIENT: {}", msg);
+    } else {
+        die(msg);
+    }
+}
 
 fn die(msg: &str) -> ! {
     eprintln!("MTX-ERROR: {}", msg);
@@ -2083,17 +2094,24 @@ fn extract_fn(src: &Src, file: &syn::File, selector: &str, ov: &FnOverlay, map: 
             _ => die(&format!("unknown @expect key {}", k)),
         };
         if have != *v {
-            die(&format!("lost anchor: `{}` has {}={} but the overlay expects {}", selector, k, have, v));
+            soft(&format!("lost anchor: `{}` has {}={} but the overlay expects {}", selector, k, have, v));
         }
     }
     for k in ov.at.keys() {
         if !w.used.contains(k) {
-            die(&format!("lost anchor: overlay position `{}` does not exist in `{}`", k, selector));
+            // an overlay that carries a property-tagged assertion is never dropped: the property would silently lose its obligation
+            if ov.at[k].contains("// [C") {
+                die(&format!("lost anchor: overlay position `{}` (carries a property-tagged obligation) does not exist in `{}`", k, selector));
+            }
+            soft(&format!("lost anchor: overlay position `{}` does not exist in `{}`", k, selector));
         }
     }
     for k in ov.closures.keys() {
         if !w.used.contains(&format!("closure:{}", k)) {
-            die(&format!("lost anchor: closure `{}` does not exist in `{}`", k, selector));
+            if ov.closures[k].spec.contains("// [C") {
+                die(&format!("lost anchor: closure `{}` (carries a property-tagged obligation) does not exist in `{}`", k, selector));
+            }
+            soft(&format!("lost anchor: closure `{}` does not exist in `{}`", k, selector));
         }
     }
     for c in ov.cuts.iter() {
@@ -2103,12 +2121,12 @@ fn extract_fn(src: &Src, file: &syn::File, selector: &str, ov: &FnOverlay, map: 
     }
     for k in ov.folds.keys() {
         if !w.used.contains(&format!("fold:{}", k)) {
-            die(&format!("lost anchor: fold `{}` does not exist in `{}`", k, selector));
+            soft(&format!("lost anchor: fold `{}` does not exist in `{}`", k, selector));
         }
     }
     for d in ov.drop_stmts.iter() {
         if !w.used.contains(&format!("drop:{}", d)) {
-            die(&format!("lost anchor: drop position `{}` does not exist in `{}`", d, selector));
+            soft(&format!("lost anchor: drop position `{}` does not exist in `{}`", d, selector));
         }
     }
     let (bs, be) = src.range(sel.block.span());
@@ -2287,6 +2305,10 @@ fn main() {
             }
             "--flags-off" => {
                 FLAGS_OFF.store(true, std::sync::atomic::Ordering::Relaxed);
+                i += 1
+            }
+            "--lenient" => {
+                LENIENT.store(true, std::sync::atomic::Ordering::Relaxed);
                 i += 1
             }
             "--contracts" => {
